@@ -212,6 +212,20 @@ class LazyRegistry(Generic[facets.QuantityT, facets.UnitT]):
         self.__init()
         return self(*args, **kwargs)
 
+    # Special methods are looked up on the type, bypassing __getattr__:
+    # the ones the registry defines need an explicit forwarder.
+    def __contains__(self, item):
+        self.__init()
+        return item in self
+
+    def __iter__(self):
+        self.__init()
+        return iter(self)
+
+    def __dir__(self):
+        self.__init()
+        return dir(self)
+
 
 class ApplicationRegistry:
     """A wrapper class used to distribute changes to the application registry."""
